@@ -955,7 +955,7 @@ def skeleton_upj(case):
 # of the T1 design check (quick: a sub-universe of FAM_Q[0]; thorough: FAM_T[0])
 T1_Q = (["a", "A", "a_0", "a b", "1", "and", "start", ""], ["object", "action", "param"], [[], ["temporal"]], 2)
 KINDS4 = ["object", "fluent", "action", "param"]
-FAM_Q = [(["a", "A", "a_0", "a b", "a_b", "1", "o_1", "and", "start", "", "total-cost"], KINDS4, [[], ["temporal"]], 2)]
+FAM_Q = [(["a", "A", "a_0", "a b", "a_b", "1", "and", "start", "", "total-cost"], KINDS4, [[], ["temporal"]], 2)]
 FAM_T = [(["a", "A", "a_", "a_0", "A_0", "a b", "a-b", "a_b", "1", "o_1", "and", "AND", "and_", "start", "", "total-cost"], KINDS4,
           [[], ["temporal"]], 2),
          (["a", "A", "a_0", "a b", "and", "start", ""], ["object", "action", "param"], [[], ["temporal"]], 3),
